@@ -150,10 +150,28 @@ def layout(ts, blank, rng):
     return s
 
 
+MAX_DEPTH = 9      # CPython's recursion limit is reached at about 15 nesting levels (finding C02-deep-nesting-rejected)
+
+
+def nesting(ts):
+    d = m = run = 0
+    for t in ts:
+        if t == "(":
+            d += 1
+        elif t == ")":
+            d -= 1
+        run = run + 1 if t in ("(", "not") else 0
+        m = max(m, d, run)
+    return m
+
+
 def spell(e, rng, paren=None, blank=None):
     paren = paren or rng.choice(["min", "min", "full", "redundant"])
     blank = blank or rng.choice(["normal", "normal", "tight", "wide"])
-    return layout(tokens(e, 3, paren, rng), blank, rng)
+    ts = tokens(e, 3, paren, rng)
+    if nesting(ts) > MAX_DEPTH:
+        ts = tokens(e, 3, "min", rng)
+    return layout(ts, blank, rng)
 
 
 def cexpr(e):
@@ -175,6 +193,8 @@ def gen_spell(tier, rng):
         dets = pick_dets(rng)
         pats = patterns_for(dets, rng)
         e = fill(shape, dets, rng, pats)
+        if nesting(tokens(e, 3, "min", rng)) > MAX_DEPTH:
+            return
         out.append({"dets": dets, "e": e, "s": spell(e, rng, paren, blank)})
 
     kmax = 3 if tier == "quick" else 4
@@ -246,6 +266,8 @@ def gen_raw(tier, rng):
     for _ in range(600 if tier == "quick" else 4000):
         dets = pick_dets(rng)
         e = fill(random_shape(rng, rng.randint(1, 5)), dets, rng, patterns_for(dets, rng))
+        if nesting(tokens(e, 3, "min", rng)) > MAX_DEPTH:
+            continue
         s = spell(e, rng)
         out += [{"dets": dets, "s": m} for m in rng.sample(edits(s), 2)]
     return out
@@ -355,8 +377,6 @@ def tuple_e(e):
 
 # ----------------------------------------------------------------------------- known finding: empty selector
 def glob(p, n):
-    if p == "them":
-        return True
     if not p:
         return not n
     if p[0] == "*":
@@ -365,7 +385,7 @@ def glob(p, n):
 
 
 def selects(dets, p):
-    return [n for n in dets if glob(p, n) and (p.startswith("_") or not n.startswith("_"))]
+    return [n for n in dets if (p == "them" or glob(p, n)) and (p.startswith("_") or not n.startswith("_"))]
 
 
 def expr_patterns(e):
@@ -416,6 +436,36 @@ def stratum_raw(c, r):
     return "rejected"
 
 
+def depth_check(tier, seed):
+    """Deep nesting: the implementation either returns the right tree or (known finding) gives up with a
+    SigmaConditionError; a non-Sigma exception or a different tree is a violation."""
+    from vlib import core
+    cases = []
+    for n in (1, 5, 10, 14, 20, 40, 120):
+        cases.append({"dets": ["a"], "s": "(" * n + "a" + ")" * n, "kind": "paren", "n": n})
+        cases.append({"dets": ["a"], "s": "not (" * n + "a" + ")" * n, "kind": "notparen", "n": n})
+    for n in (10, 40, 60, 150):
+        cases.append({"dets": ["a"], "s": "not " * n + "a", "kind": "not", "n": n})
+    res = core.run_impl("C02", "run_cond", cases)
+    problems, hits, rejected = [], {}, 0
+    for c, r in zip(cases, res):
+        want = ["id", "a"]
+        if c["kind"] != "paren":
+            for _ in range(c["n"]):
+                want = ["not", want]
+        got = r.get("parse") if isinstance(r, dict) else None
+        if got == want:
+            continue
+        if isinstance(got, dict) and got.get("sigma") and got.get("exc") == "SigmaConditionError" and c["n"] >= 14:
+            hits.setdefault("C02-deep-nesting-rejected", c)
+            rejected += 1
+            continue
+        problems.append(core.Problem("violation", "depth", c, {"impl": r, "expected_parse": want if c["n"] < 30 else "nested"}))
+    return {"name": "depth", "problems": problems, "evaluations": len(cases), "nontrivial_keys": ["depth:%s:%d" % (c["kind"], c["n"]) for c in cases],
+            "stats": {"cases": len(cases), "rejected_as_too_deep": rejected}, "samples": [{"suite": "depth", "case": cases[6], "impl": res[6]}],
+            "known_hits": hits}
+
+
 REQ = ["Base.Chars", "Base.Outcome", "Model.CondParse", "Model.Cond", "Spec.Glob", "Spec.CondGrammar", "Run.C02run"]
 PROPERTY = Property(
     pid="C02", props_file="Props/C02.v",
@@ -425,6 +475,7 @@ PROPERTY = Property(
         Suite("raw", gen_raw, "run_cond", REQ, "judge_raw", raw_to_coq, known=known_raw, mutate=mutate,
               stratum=stratum_raw, shard=400),
     ],
+    extra_checks=[depth_check],
     rule="spell: every expression shape (and/or binary, any node negated) with <= 3 (quick) / 4 (thorough) leaves x 3 parenthesis "
          "styles x random blank style, random shapes up to 12 leaves, leaves = names from a hostile pool (notepad, android, oracle, "
          "all_x, any1, of, them_, 1st, a-b, _x, 1, any, all, them, NOT ...), undefined names, selectors 1/any/all with patterns having "
@@ -437,6 +488,7 @@ PROPERTY = Property(
         "re.fullmatch(pattern.replace('*','.*'), name, DOTALL) is modelled by a backtracking matcher for literals and '.*' (Model/Cond.v rmatch)",
         "each detection is a single field=value atom; the detection's own condition tree belongs to other properties",
         "the lru_cache / deepcopy of the parse result is only observed through a repeated .parsed access (C15 covers sharing)",
-        "nesting depth is bounded by the generators (CPython recursion limit is not modelled)",
+        "nesting depth of generated conditions is bounded by 9 (the CPython recursion limit is not modelled; suite 'depth' and finding "
+        "C02-deep-nesting-rejected cover what happens beyond it)",
     ],
 )
